@@ -340,6 +340,19 @@ def h_programmatic(eng, endpoints, act, second):
                 r, want_n = q.to("hz", "p", n=nv), nv
             elif act == "per-call-default":
                 r, want_n = q.to("hz", "p"), n0
+            elif act == "ito-kw":
+                r = ureg.Quantity(x, src_unit)
+                r.ito("hz", "p", n=nv)
+                want_n = nv
+            elif act == "ito-default":
+                r = ureg.Quantity(x, src_unit)
+                r.ito("hz", "p")
+                want_n = n0
+            elif act == "ito-kw-inside-block":
+                with ureg.context("p", n=n0 + nv):
+                    r = ureg.Quantity(x, src_unit)
+                    r.ito("hz", "p", n=nv)
+                want_n = nv
             elif act == "with-kw":
                 with ureg.context("p", n=nv):
                     r, want_n = q.to("hz"), nv
@@ -376,6 +389,40 @@ def h_programmatic(eng, endpoints, act, second):
         once("second", acts[1])
         if acts[0] != acts[1]:
             once("third", acts[0])
+
+
+def h_offset_redefinition(eng, form):
+    """a context that redefines an offset unit: the unit's difference unit (delta_), which the
+    registry derives from it, follows the redefinition while the context is active"""
+    from pint import Context
+
+    s0, x, y = eng.real("s0"), eng.real("x"), eng.real("y")
+    eng.assume(s0 > 0)
+    L = eng.lit
+    ureg = regs.build(eng, ["kel = [temp]", "s = [time]", "kk- = 1000", f"degA = {L(s0)} * kel; offset: 100 = dA", "@context cR", "    degA = 7 * kel; offset: 123", "@end"])
+    cprog = Context("cP")
+    cprog.redefine("degA = 7 * kel; offset: 123")
+    ureg.add_context(cprog)
+    name = {"text": "cR", "programmatic": "cP"}[form]
+    Qy = ureg.Quantity
+
+    def probe(scale, off, tag):
+        P = eng.prove
+        P(Eq(Qy(x, "degA").to("kel").magnitude, scale * x + off), f"offset-redefinition:{form}:{tag}:absolute")
+        P(Eq(Qy(x, "delta_degA").to("kel").magnitude, scale * x), f"offset-redefinition:{form}:{tag}:delta-unit")
+        P(Eq(Qy(x, "degA/s").to("kel/s").magnitude, scale * x), f"offset-redefinition:{form}:{tag}:delta-in-compound")
+        d = Qy(x, "degA") - Qy(y, "degA")
+        P(Eq(d.to("kel").magnitude, scale * (x - y)), f"offset-redefinition:{form}:{tag}:difference-of-two")
+        P(Eq(Qy(x, "kkdelta_degA").to("kel").magnitude, 1000 * scale * x), f"offset-redefinition:{form}:{tag}:prefixed-delta")
+
+    probe(s0, 100, "before")
+    with ureg.context(name):
+        probe(7, 123, "inside")
+    probe(s0, 100, "after")
+    ureg.enable_contexts(name)
+    probe(7, 123, "enabled")
+    ureg.disable_contexts()
+    probe(s0, 100, "disabled")
 
 
 def h_anonymous_redefinitions(eng, order):
@@ -523,12 +570,14 @@ def cases(tier, seed):
             sig = "+".join(c + ("(n)" if wn else "") for c, wn in st) + ":" + form
             out.append(Case("H11.b", sig, M, "h_forms", {"stack": [list(s) for s in st], "form": form}, opts=mixed, validate=1 if len(st) == 1 else 0, weight=float(len(st))))
     for ep in ("derived", "derived-both", "base-expr", "container"):
-        for act in ("per-call-object", "per-call-name", "per-call-default", "with-kw", "with-default", "nested-inherits", "enable-kw"):
+        for act in ("per-call-object", "per-call-name", "per-call-default", "with-kw", "with-default", "nested-inherits", "enable-kw", "ito-kw", "ito-default", "ito-kw-inside-block"):
             out.append(Case("H11.d", f"{ep}:{act}", M, "h_programmatic", {"endpoints": ep, "act": act, "second": True}, opts=mixed, validate=1))
     all_acts = ("per-call-object", "per-call-name", "per-call-default", "with-kw", "with-default", "nested-inherits", "enable-kw")
     for ep in ("derived", "derived-both", "base-expr", "container") if big else ("derived", "derived-both"):
         for a1, a2 in itertools.permutations(all_acts, 2):
             out.append(Case("H11.d", f"{ep}:{a1}>{a2}", M, "h_programmatic", {"endpoints": ep, "act": f"{a1}>{a2}", "second": True}, opts=mixed, validate=1 if (a1, a2) in (("with-kw", "with-default"), ("enable-kw", "per-call-default")) else 0))
+    for form in ("text", "programmatic"):
+        out.append(Case("H11.d", f"offset-redefinition:{form}", M, "h_offset_redefinition", {"form": form}, opts=mixed, validate=1))
     for order in ("ab", "ba"):
         out.append(Case("H11.d", f"anonymous-redefinitions:{order}", M, "h_anonymous_redefinitions", {"order": order}, opts=mixed, validate=1))
     # path search: all graphs with 4 nodes (first row enumerated by cases, the rest by forks)
